@@ -73,6 +73,8 @@ def general_oracle(d: ls.Driver):
         err = [a for a in pk if isinstance(a, tuple) and a[0] == "PErr"]
         if sid not in known or sid not in cur:
             return None if err and not rows else f"fetch on statement {sid} without cursor answered {pk[:3]}"
+        if isinstance(cur[sid], str):
+            return None
         n, pos = cur[sid]
         exp = list(range(pos, min(n, pos + want)))
         if err:
@@ -98,6 +100,7 @@ def general_oracle(d: ls.Driver):
                                 known.add(a[1])
             elif cmd[0] == "execute" and cmd[1] in known:
                 pending = (cmd[1], cmd[2])
+                cur.pop(cmd[1], None)       # re-executing a statement discards its cursor - with or without a new one, whatever the outcome
             elif cmd[0] == "reset":
                 cur.pop(cmd[1], None)
             elif cmd[0] == "close":
@@ -109,6 +112,8 @@ def general_oracle(d: ls.Driver):
             pending = None
             if cursor and "IRaise" not in ev:
                 cur[sid] = [ev.count("IRow"), 0]
+            elif cursor:
+                cur[sid] = "a source that raises: not judged"
         elif ev.startswith("EvApp") and pending is not None:
             pending = None
         if fetch is not None:
@@ -185,6 +190,17 @@ def run(ctx: core.Ctx):
                     n = rng.choice([0, 1, 3, 6])
                     lens[sid] = n
                     d.app_result("set", ncols=1, items=[("row", 1)] * n, asynchronous=False)
+            elif r < 0.42:
+                # a re-execution that installs NO new cursor: without the cursor flag, or answered with no result, or refused
+                how = rng.choice(["no-cursor-flag", "no-result", "refused"])
+                d.payload(("execute", sid, how != "no-cursor-flag"))
+                if d.blocked() == "app":
+                    if how == "no-cursor-flag":
+                        d.app_result("set", ncols=1, items=[("row", 1)] * rng.choice([0, 2]), asynchronous=False)
+                    elif how == "no-result":
+                        d.app_result("none")
+                    else:
+                        d.app_result("raise", raise_code=rng.choice([None, 1064]))
             elif r < 0.8:
                 d.payload(("fetch", sid, rng.choice([0, 1, 2, 3, 10])))
             elif r < 0.9:
